@@ -162,11 +162,17 @@ def ref_gcp(x, g, lb, ub, B):
     fpp_first = None
     last = dict(fpp=None, dt=0.0, dmax=0.0)
     knife = False  # a stop-or-continue decision taken within 1e-9 (relative) of its threshold
+    fp_hist = 0.0  # largest magnitude f' has had on the segments walked so far
     for tb in bps + [np.inf]:
         fp = float(g @ d + d @ (B @ z))
         fpp = float(d @ (B @ d))
         if fpp_first is None:
             fpp_first = fpp
+        if np.any(d != 0) and crossed > 0 and abs(fp) <= 1e3 * EPS * fp_hist:
+            # an implementation that updates f' from segment to segment (as Algorithm CP does) knows it to a few eps of the largest
+            # value it has had: a slope below that is of undecidable sign, stop-or-continue is then decided by rounding
+            knife = True
+        fp_hist = max(fp_hist, abs(fp))
         if np.any(d != 0) and abs(fp) <= 1e-9 * (abs(float(g @ d)) + abs(float(d @ (B @ z)))):
             knife = True
         if fp >= 0 or not np.any(d != 0):
